@@ -151,6 +151,8 @@ impl Scenario for C02 {
         }
         if m.advances < self.max_adv {
             v.push(Act::Advance(20));
+            // ~64 days: longer than any TTL a contract extends to, shorter than the minimum persistent TTL
+            v.push(Act::Advance(1_100_000));
         }
         v
     }
